@@ -80,6 +80,18 @@ func init() {
 }
 
 func init() {
+	known.Witnesses["FX-PATH-cursor-not-restored"] = func() (bool, string) {
+		doc := []byte(`{"a":{"b":[1,{"a":2,"b":null}],"c":"x"},"b":[[3],[]]}`)
+		p, err := gojson.CreatePath("$.b.a")
+		if err != nil {
+			return true, err.Error()
+		}
+		_, e1 := p.Extract(doc)
+		r2, e2 := p.Extract(doc)
+		fresh, _ := gojson.CreatePath("$.b.a")
+		r3, e3 := fresh.Extract(doc)
+		return (e2 == nil) != (e3 == nil) || len(r2) != len(r3), fmt.Sprintf("first err=%v; reused: %d parts err=%v; fresh: %d parts err=%v", e1, len(r2), e2, len(r3), e3)
+	}
 	known.Witnesses["FX-DEC-key-invalid-escape"] = func() (bool, string) {
 		var v struct{}
 		var err error
